@@ -5,10 +5,11 @@ from .util import call
 
 ID = 'C01'
 LEAN_MODULE = 'KernProofs.C01'
-EXTRA_MODULES = ['KernProofs.C01Norm', 'KernProofs.C01Text']
+EXTRA_MODULES = ['KernProofs.C01Norm', 'KernProofs.C01Text', 'KernProofs.C01Plain']
 THEOREMS = ['KM.C01.C01_canon', 'KM.C01.C01_canon_export', 'KM.C01.canon_sameContent', 'KM.C01.C01_export_is_render_canon', 'KM.C01.C01_cell_fixed_point', 'KM.C01.canon_idem', 'KM.Spec.sortedSet_congr', 'KM.Spec.sortedSet_idem', 'KM.C03.C03_single',
             'KM.C01N.C01_normal_form_fixed_point', 'KM.C01N.C01_normalForm_idem', 'KM.C01N.RT_P0',
-            'KM.C01T.specExport_rel', 'KM.C01T.toks_rel', 'KM.C01T.C01_export_of_normal_form', 'KM.C01T.C01_dumps_of_normal_form']
+            'KM.C01T.specExport_rel', 'KM.C01T.toks_rel', 'KM.C01T.C01_export_of_normal_form', 'KM.C01T.C01_dumps_of_normal_form',
+            'KM.C01P.specBody_allsel', 'KM.C01P.C01_plain_export', 'KM.C01P.outRows_norm', 'KM.C01P.C01_fixed_point_plain']
 FINGERPRINTS = ['tokens.NoteRestToken.export', 'tokens.ChordToken.export', 'tokenizers.KernTokenizer.tokenize', 'tokenizers.EkernTokenizer.tokenize',
                 'base_antlr_spine_parser_listener', 'exporter.Exporter.export_string', 'exporter.get_kern_from_ekern', 'importer.Importer',
                 'kern_spine_importer.KernSpineImporter.import_token']
@@ -91,7 +92,8 @@ def explore(ctx, depth):
                      'two writings of the same notes (same signifier sets) export differently', impl=ea, expected=eb)
     # the statements of C01_normalForm_idem and C01_dumps_of_normal_form evaluated on the real library: the cell-wise normal form of the text
     # (computed by the Lean definition `C01N.normalForm` with the real parser's per-cell outcomes) is idempotent and exports to the same text
-    live = [c for c in cases if c.doc is not None]
+    plain_cases = docrun.make_cases(ctx, 12 if depth == 'quick' else 120, comments=False)      # documents without global comments: mostly plain texts
+    live = [c for c in cases + plain_cases if c.doc is not None]
     nresp = ctx.driver.ask([{'op': 'doc.norm', 'text': c.text, 'oracle': impl.oracle_for_text(c.text)} for c in live])
     ntexts = [''.join('\t'.join(row) + '\n' for row in r['rows']) for r in nresp]
     n2resp = ctx.driver.ask([{'op': 'doc.norm', 'text': t, 'oracle': impl.oracle_for_text(t)} for t in ntexts])
@@ -108,6 +110,14 @@ def explore(ctx, depth):
         if ea != eb:
             ctx.fail({'text': c.text, 'normal_form': nt_, 'clause': 'export of the normal form'},
                      'dumps(loads(normal form of the text)) differs from dumps(loads(text))', impl=eb, expected=ea)
+        # the statement of C01_plain_export / C01_fixed_point_plain: for a plain text (no global comment, only supported spine types, no line of
+        # the normal form all-null) the export IS the normal form
+        plain = not any(r['kind'] == 'global' for r in c.adoc['rows']) and all(h in gen.HEADERS for h in c.adoc['headers']) and \
+            all(any(x not in ('.', '*', '') for x in ln.split('\t')) for ln in nt_.split('\n')[:-1])
+        ctx.count('normal_form:' + ('plain' if plain else 'not-plain'))
+        if plain and ea != {'ok': nt_}:
+            ctx.fail({'text': c.text, 'clause': 'plain text: export = normal form'},
+                     'the default export of a plain text is not its cell-wise normal form', impl=ea, expected=nt_)
     # chains on generated documents
     chain_cases, chain_exps = [], []
     for case in cases:
